@@ -388,7 +388,13 @@ def do_write(spec: dict, b: Built, path: str, scratch: str, data='__auto__', **o
         b.write_data = data
         if data is not None:
             kwargs['data'] = data
-        b.df.write(path, **kwargs)
+        if w.get('hc'):
+            # the write (only) happens in high-compatibility mode
+            from dliswriter import high_compatibility_mode
+            with high_compatibility_mode():
+                b.df.write(path, **kwargs)
+        else:
+            b.df.write(path, **kwargs)
         return ('ok',)
     except Exception as e:  # noqa
         return _exc(e)
